@@ -2,7 +2,7 @@
 Stage B: every property's annotation (get_type_string) vs Types.type_of; every attribute value of every object decoded from
 schema-valid data by the GENERATED from_dict is checked (in Coq) to inhabit the modelled annotation; every response_type.
 Stage C (search only - mypy's judgement is not modelled): mypy --strict on generated trees."""
-import json, os, random, subprocess, concurrent.futures as cf
+import re, json, os, random, subprocess, concurrent.futures as cf
 from lib.common import cstr, run_cases, coq_eval, VERIF
 from lib import impl, absprop, tyabs, epwork
 from gen import schemas as G
@@ -170,6 +170,9 @@ def run(run, tier, replay=None):
             src = m["context"].get(e, "")
             if "[redundant-cast]" in e and src.startswith("return cast(") and src.endswith(", value)") and "/models/" in e:
                 if run.known_finding("mypy_literal_enum_redundant_cast", f"tree '{m['label']}': {e[:160]} | {src}"):
+                    continue
+            if "[redundant-cast]" in e and re.match(r"\w+ = cast\(list\[Any\], data\)$", src) and 'Redundant cast to "list[Any]"' in e:
+                if run.known_finding("mypy_union_list_any_redundant_cast", f"tree '{m['label']}': {e[:160]} | {src}"):
                     continue
             if "[assignment]" in e and src.startswith("cookies[") and "/api/" in e:
                 if run.known_finding("mypy_cookie_optional", f"tree '{m['label']}': {e[:200]} | {src}"):
